@@ -267,3 +267,220 @@ def leak_stage(tier_, key):
                 "with_reference_cycle": sum(1 for r in recs if r["cycle"]), "leaking": sum(1 for r in recs if r["leaked"] != 0),
                 "longest_reuse": max(r["calls"] for r in recs), "tlc_states": states}, "samples": recs[:2]}
     return cached(key, "leak_%s_%d" % (tier_, seed()), compute)
+
+# ---------------------------------------------------------------- C15 / C16 / C18: direct calls
+def calls_stage(tier_, key):
+    def compute(d):
+        build_harness()
+        q = tier_ == "quick"
+        spec = {"seed": sub_seed("calls", tier_), "two_byte": 300 if q else 65536, "longer": 60 if q else 400,
+                "rand_states": 40 if q else 200, "values": 12 if q else 60, "shards": CORES - 2}
+        sf = os.path.join(d, "calls_spec.json"); json.dump(spec, open(sf, "w"))
+        prefix = os.path.join(d, "calls_")
+        p = run([PFV, "calls", sf, prefix], timeout=7200)
+        counts = json.loads(p.stdout.strip().split("\n")[-1])
+        files = [os.path.join(d, f) for f in sorted(os.listdir(d)) if f.startswith("calls_ent_") or f.startswith("calls_mut_")]
+        res = tlc.run_trace_shards("calls", "TraceCalls.tla", "TraceCalls.cfg", files, timeout=7200)
+        findings, done, states = [], 0, 0
+        for fp, (vals, st, wall) in zip(files, res):
+            states += st["distinct"]
+            lines = None
+            for v in vals:
+                if v and v[0] == "MSGS":
+                    for m in v[1]:
+                        if lines is None: lines = open(fp).read().split("\n")
+                        findings.append({"kind": m[0], "tag": m[2], "why": flat(m[3]), "record": json.loads(lines[m[1] - 1])})
+                elif v and v[0] == "DONE":
+                    done += v[1]
+        if done != counts["ent"] + counts["mut"]:
+            raise ToolError("call validation incomplete: %d of %d records" % (done, counts["ent"] + counts["mut"]))
+        # distinct non-trivial cases: distinct (method/mutator, argument, source) tuples whose call did something
+        ent_keys, mut_keys, fired, samples = set(), set(), 0, []
+        for fp in files:
+            for l in open(fp):
+                r = json.loads(l)
+                if r["t"] == "ent":
+                    if r["m"] in ("choose_index", "gen_range") and r["a"] != [0, 0, 0, 0]:
+                        ent_keys.add((r["m"], tuple(r["a"]), tuple(r["b"]), r["sk"], tuple(r["src"])))
+                else:
+                    if r["out"]["some"] == 1:
+                        fired += 1
+                        mut_keys.add((r["mut"], r["um"], r["meth"], tuple(r["in"]), tuple(r["out"]["v"])))
+                if len(samples) < 6 and ((r["t"] == "ent" and r["sk"] == 2 and len(r["src"]) == 2 and r["m"] == "gen_range")
+                                         or (r["t"] == "mut" and r["out"]["some"] == 1 and r["meth"] in ("string", "post"))):
+                    samples.append(r)
+        for fp in files: os.remove(fp)
+        return {"findings": findings[:500], "n_findings": len(findings),
+                "coverage": {"entropy_calls": counts["ent"], "mutator_calls": counts["mut"], "mutator_calls_that_fired": fired,
+                             "distinct_entropy_cases": len(ent_keys), "distinct_mutation_results": len(mut_keys),
+                             "all_fuzzer_inputs_up_to_length_1": True, "all_fuzzer_inputs_of_length_2": not q, "tlc_states": states},
+                "samples": samples}
+    return cached(key, "calls_%s_%d" % (tier_, seed()), compute)
+
+# ---------------------------------------------------------------- C13: front ends
+def cli_args(o, target):
+    a = list(target)
+    if o["protocol"] >= 0: a += ["--protocol", str(o["protocol"])]
+    if o["seed"] >= 0: a += ["--seed", str(o["seed"])]
+    a += ["--min-opcodes", str(o["min"]), "--max-opcodes", str(o["max"])]
+    if o["muts"]: a += ["--mutators"] + list(o["muts"])
+    a += ["--mutation-rate", "%.3f" % (o["rate1000"] / 1000.0)]
+    if o["unsafe"]: a.append("--unsafe-mutations")
+    if o["ext"]: a.append("--allow-ext")
+    if o["buf"]: a.append("--allow-buffer")
+    return a
+
+def lib_cfg_of(o):
+    """the driver's own reading of the options (validated against Frontend!CliConfig by TLC)"""
+    muts = list(o["muts"])
+    if "all" in muts:
+        muts = ["bitflip", "boundary", "offbyone", "stringlen", "character", "typeconfusion"] + (["memoindex"] if o["unsafe"] else [])
+    withm = bool(muts)
+    return {"P": o["protocol"] if o["protocol"] >= 0 else o["seed"] % 6, "seed": o["seed"], "min": o["min"], "max": o["max"], "muts": muts,
+            "rate1000": max(0, min(1000, o["rate1000"])) if withm else 100, "unsafe": o["unsafe"] if withm else 0,
+            "mutUnsafe": o["unsafe"] if withm else 0, "ext": o["ext"], "buf": o["buf"]}
+
+def harness_job(jid, lc, data=None):
+    c = corpus.cfg(lc["P"], lc["min"], lc["max"], muts=lc.get("muts", []), rate=lc.get("rate1000", 100) / 1000.0,
+                   unsafe=bool(lc.get("unsafe", 0)), mut_unsafe=bool(lc.get("mutUnsafe", 0)), ext=bool(lc.get("ext", 0)), buf=bool(lc.get("buf", 0)))
+    if data is None:
+        return {"id": jid, "cfg": c, "mode": "seed", "seed": lc["seed"]}
+    return {"id": jid, "cfg": c, "mode": "bytes", "seed": 0, "bytes": list(data)}
+
+def front_stage(tier_, key):
+    def compute(d):
+        build_harness()
+        exe = build_cli()
+        q = tier_ == "quick"
+        rng = random.Random(sub_seed("front", tier_))
+        mut_choices = [[], ["all"], ["bitflip", "character"], ["memoindex", "offbyone"]] + [[m] for m in corpus.MUTS]
+        def rand_opts(i):
+            return {"protocol": rng.choice([-1, -1, 0, 1, 2, 3, 4, 5]), "seed": rng.randrange(0, 2 ** 31 - 1),
+                    "min": rng.choice([60, 5, 30, 0]), "max": rng.choice([300, 20, 3, 40]),
+                    "muts": mut_choices[i % len(mut_choices)], "rate1000": rng.choice([100, 0, 1000, 370, 2500]),
+                    "unsafe": rng.choice([0, 0, 1]), "ext": rng.choice([0, 1]), "buf": rng.choice([0, 1])}
+        cases = []
+        n_single = 44 if q else 400
+        for i in range(n_single):
+            cases.append({"id": len(cases) + 1, "kind": "cli", "mode": "single", "opts": rand_opts(i)})
+        for i in range(12 if q else 80):
+            cases.append({"id": len(cases) + 1, "kind": "cli", "mode": "batch", "opts": rand_opts(i * 3 + 1), "n": rng.choice([1, 3, 17]),
+                          "threads": rng.choice([1, 4, 16])})
+        for i in range(10 if q else 40):
+            cases.append({"id": len(cases) + 1, "kind": "cli", "mode": "action", "opts": rand_opts(i * 5 + 2), "n": rng.choice([0, 2])})
+        cases.append({"id": len(cases) + 1, "kind": "cli", "mode": "batch-fail", "opts": rand_opts(1), "n": 3, "threads": 2})
+        # library runs for the configuration the driver believes the options denote
+        jobs = [harness_job(c["id"], lib_cfg_of(c["opts"])) for c in cases]
+        # python cases
+        pycases = []
+        for i in range(14 if q else 80):
+            P = rng.randrange(6); sd = rng.choice([-1, rng.randrange(1, 2 ** 31 - 1), rng.randrange(1, 2 ** 31 - 1)])
+            calls = [["new", P, sd]]
+            for _ in range(rng.choice([0, 1, 1, 2])):
+                calls.append(rng.choice([["range", rng.choice([3, 10]), rng.choice([12, 40])], ["reset", 0, 0]]))
+            usebytes = sd < 0 or rng.random() < 0.5
+            data = [rng.randrange(256) for _ in range(rng.randrange(0, 300))] if usebytes else None
+            via = "generator" if (not usebytes or rng.random() < 0.5) else "mutator"
+            extra_gen = rng.choice([0, 1, 2])          # earlier generation calls on the same object
+            calls2 = calls + [["gen", 0, 0]] * (extra_gen + 1)
+            pc = {"id": 10000 + i, "kind": "py", "via": via, "calls": calls2, "data": data,
+                  "maxsize": rng.choice([-1, 10, 50, 100000]) if via == "mutator" else -1}
+            if via == "mutator" and pc["maxsize"] < 0: pc["maxsize"] = 100000
+            pycases.append(pc)
+        def pycfg(calls):
+            c = {"P": 3, "seed": -1, "min": 60, "max": 300}
+            for x in calls:
+                if x[0] == "new": c = {"P": x[1], "seed": x[2], "min": 60, "max": 300}
+                elif x[0] == "range": c["min"], c["max"] = x[1], x[2]
+            return c
+        for pc in pycases:
+            lc = pycfg(pc["calls"])
+            pc["libcfg"] = lc
+            jobs.append(harness_job(pc["id"], dict(lc, seed=max(lc["seed"], 0)), data=pc["data"]) if pc["data"] is not None else harness_job(pc["id"], lc))
+        jf = os.path.join(d, "front_jobs.json"); json.dump(jobs, open(jf, "w"))
+        lf = os.path.join(d, "front_lib.ndjson")
+        run([PFV, "libgen", jf, lf], timeout=3600)
+        lib = {}
+        for l in open(lf):
+            if l.strip():
+                r = json.loads(l); lib[r["id"]] = r["hex"]
+        recs = []
+        for c in cases:
+            o = c["opts"]; what = "%s %s" % (c["mode"], json.dumps(o))
+            base = {"t": "front", "kind": "cli", "opts": o, "libcfg": lib_cfg_of(o), "what": what, "calls": []}
+            if c["mode"] == "single":
+                fp = os.path.join(d, "front_single.pkl")
+                if os.path.exists(fp): os.remove(fp)
+                p = run([exe] + cli_args(o, [fp]), check=False, timeout=600)
+                got = open(fp, "rb").read().hex() if os.path.exists(fp) else ""
+                recs.append(dict(base, exit=min(p.returncode, 1), want_exit=0, files=[], want_files=[], got=got, lib=lib[c["id"]]))
+            elif c["mode"] in ("batch", "batch-fail"):
+                od = os.path.join(d, "front_batch")
+                shutil.rmtree(od, ignore_errors=True)
+                if os.path.exists(od): os.remove(od)
+                if c["mode"] == "batch-fail":
+                    open(od, "w").write("not a directory")
+                p = run([exe] + cli_args(o, ["--dir", od, "--samples", str(c["n"])]), env={"RAYON_NUM_THREADS": str(c["threads"])}, check=False, timeout=1200)
+                if c["mode"] == "batch-fail":
+                    os.remove(od)
+                    recs.append(dict(base, exit=min(abs(p.returncode), 1), want_exit=1, files=[], want_files=[], got="", lib=""))
+                else:
+                    files = sorted(os.listdir(od), key=lambda f: (len(f), f)) if os.path.isdir(od) else []
+                    got = [open(os.path.join(od, f), "rb").read().hex() for f in files]
+                    recs.append(dict(base, exit=min(p.returncode, 1), want_exit=0, files=files, want_files=["%d.pkl" % i for i in range(c["n"])],
+                                     got=got, lib=[lib[c["id"]]] * c["n"]))
+                    shutil.rmtree(od, ignore_errors=True)
+            else:   # GitHub-action wrapper
+                env = {"PATH": os.path.dirname(exe) + ":" + os.environ.get("PATH", ""), "INPUT_SEED": str(o["seed"]),
+                       "INPUT_MIN_OPCODES": str(o["min"]), "INPUT_MAX_OPCODES": str(o["max"]),
+                       "INPUT_MUTATION_RATE": "%.3f" % (o["rate1000"] / 1000.0)}
+                if o["protocol"] >= 0: env["INPUT_PROTOCOL"] = str(o["protocol"])
+                if o["muts"]: env["INPUT_MUTATORS"] = ", ".join(o["muts"])
+                if o["unsafe"]: env["INPUT_UNSAFE_MUTATIONS"] = "true"
+                if o["ext"]: env["INPUT_ALLOW_EXT"] = "true"
+                if o["buf"]: env["INPUT_ALLOW_BUFFER"] = "1"
+                for k in list(os.environ):
+                    if k.startswith("INPUT_"): os.environ.pop(k)
+                if c["n"] == 0:
+                    fp = os.path.join(d, "front_action.pkl")
+                    if os.path.exists(fp): os.remove(fp)
+                    env["INPUT_OUTPUT_FILE"] = fp
+                    p = run(["bash", os.path.join(REPO, "scripts", "action-run.sh")], env=env, check=False, timeout=600)
+                    got = open(fp, "rb").read().hex() if os.path.exists(fp) else ""
+                    recs.append(dict(base, exit=min(p.returncode, 1), want_exit=0, files=[], want_files=[], got=got, lib=lib[c["id"]]))
+                else:
+                    od = os.path.join(d, "front_action_dir"); shutil.rmtree(od, ignore_errors=True)
+                    env["INPUT_OUTPUT_DIR"] = od; env["INPUT_SAMPLES"] = str(c["n"])
+                    p = run(["bash", os.path.join(REPO, "scripts", "action-run.sh")], env=env, check=False, timeout=600)
+                    files = sorted(os.listdir(od), key=lambda f: (len(f), f)) if os.path.isdir(od) else []
+                    got = [open(os.path.join(od, f), "rb").read().hex() for f in files]
+                    recs.append(dict(base, exit=min(p.returncode, 1), want_exit=0, files=files, want_files=["%d.pkl" % i for i in range(c["n"])],
+                                     got=got, lib=[lib[c["id"]]] * c["n"]))
+                    shutil.rmtree(od, ignore_errors=True)
+        # python front end
+        py_note = ""
+        try:
+            moddir = build_py()
+            cf = os.path.join(d, "front_pycases.json"); json.dump(pycases, open(cf, "w"))
+            rf = os.path.join(d, "front_pyres.json")
+            run(["python3-vt", os.path.join(VERIF, "bin", "vlib", "pyfront_runner.py"), cf, rf], env={"PYTHONPATH": moddir}, timeout=1800)
+            pyres = {r["id"]: r for r in json.load(open(rf))}
+            for pc in pycases:
+                r = pyres[pc["id"]]
+                full = list(bytes.fromhex(lib[pc["id"]]))
+                want = full[:pc["maxsize"]] if pc["via"] == "mutator" and len(full) > pc["maxsize"] else full
+                if pc["libcfg"]["seed"] < 0 and pc["data"] is None:
+                    continue
+                recs.append({"t": "front", "kind": "py", "opts": {}, "calls": pc["calls"], "libcfg": pc["libcfg"], "what": "python %s %s" % (pc["via"], json.dumps(pc["calls"])),
+                             "exit": 0 if r["ok"] else 1, "want_exit": 0, "files": [], "want_files": [], "got": r["got"], "lib": want})
+        except ToolError as e:
+            raise ToolError("python front end could not be built/run: %s" % str(e)[:2000])
+        hf = os.path.join(d, "front_hist.ndjson")
+        open(hf, "w").write("\n".join(json.dumps(r) for r in recs) + "\n")
+        findings, states = validate_history("front", hf)
+        small = [dict(r, got="...", lib="...") for r in recs]
+        return {"findings": split_findings(findings, small), "coverage": {"cases": len(recs),
+                "cli_single": sum(1 for c in cases if c["mode"] == "single"), "cli_batch": sum(1 for c in cases if c["mode"].startswith("batch")),
+                "action_wrapper": sum(1 for c in cases if c["mode"] == "action"), "python_sequences": sum(1 for r in recs if r["kind"] == "py"),
+                "tlc_states": states}, "samples": small[:2] + small[-2:]}
+    return cached(key, "front_%s_%d" % (tier_, seed()), compute)
